@@ -216,3 +216,47 @@ def run_deepdiff(t1, t2, **kw):
     except Exception as e:  # noqa
         return e, (snapshot(a) == sa and snapshot(b) == sb)
     return r, (snapshot(a) == sa and snapshot(b) == sb)
+
+
+MODEL_HDR = "From DD Require Import Base.PyStr Base.Value Diff.Tree Diff.DiffModel Diff.DiffShow."
+
+
+def recorded_opcode_paths(dd, t1):
+    """canonical paths of the lists whose opcodes DeepDiff recorded"""
+    from deepdiff.path import _path_to_elements
+    from harness.core import sx_sorted
+    recp = []
+    for ps in dd._iterable_opcodes.keys():
+        els = _path_to_elements(ps, root_element=None)
+        cur, cp = t1, []
+        for el, _act in els:
+            if isinstance(cur, (list, tuple)):
+                cp.append(["x", el])
+            else:
+                cp.append(["k", V.canon_atom(el)])
+            cur = cur[el]
+        recp.append(cp)
+    return sx_sorted(recp)
+
+
+def model_tree_expr(t1, t2, zip_, thr, ignore_private=True, skip="no_paths", excl="no_paths"):
+    return "sx_tree (run_diff hatom_simple (tbl_udiff %s) (tbl_ops %s) %s %s %s %s %s)" % (
+        coq_udiff_table(udiff_table(t1, t2)), coq_ops_table(opcode_table(t1, t2)), skip, excl,
+        coq_cfg(zip_, thr, ignore_private), V.to_coq(t1), V.to_coq(t2))
+
+
+def in_model_guard(t1, t2):
+    """inputs on which the simple injective stand-in for DeepHash on set members
+    is faithful: no == atoms of different type among set members, no strings
+    that collide with a type tag (finding K1)"""
+    return not (set_alias(t1, t2) or tag_unsafe(t1, t2))
+
+
+def tree_case(t1, t2, zip_, thr, **kw):
+    """(coq expr, expected observable, tag) for one DeepDiff tree-view run, or
+    None when DeepDiff raised (returned separately)."""
+    r, unmod = run_deepdiff(t1, t2, view="tree", zip_ordered_iterables=zip_, threshold_to_diff_deeper=thr, verbose_level=2, **kw)
+    if isinstance(r, Exception):
+        return None, r, unmod
+    obs = [tree_obs(r), recorded_opcode_paths(r, t1)]
+    return (model_tree_expr(t1, t2, zip_, thr), obs, {"t1": repr(t1), "t2": repr(t2), "zip": zip_, "thr": thr}), r, unmod
